@@ -167,6 +167,10 @@ def safe_callable_names(root: ast.Module) -> Collection[str]:
             nonreturn_children = []
             for child in node.body:
                 if core.is_blocking(child):
+                    # What happens before the function is left also happens when it is called,
+                    # and the value of a plain return statement is among return_children.
+                    if not isinstance(child, ast.Return):
+                        nonreturn_children.append(child)
                     break
 
                 nonreturn_children.append(child)
